@@ -82,6 +82,14 @@ def step (c : Option Reader) (line : String) : Option Reader × String :=
       let x := r.read k
       (some x.1, s!"n={x.2.1.length} err={showErr x.2.2} pos={x.1.offset} fnv={fnv x.2.1}")
     | _, _ => (c, "bad-op")
+  -- CtxReadFull with a context of its own, cancelled after the call: a per-call context has no effect on later calls,
+  -- so this is `read`
+  | ["ctxreadfull", k] =>
+    match c, k.toNat? with
+    | some r, some k =>
+      let x := r.read k
+      (some x.1, s!"n={x.2.1.length} err={showErr x.2.2} pos={x.1.offset} fnv={fnv x.2.1}")
+    | _, _ => (c, "bad-op")
   | ["writeto"] =>
     match c with
     | some r =>
